@@ -659,3 +659,6 @@ def run(ctx, led):
     run_rule(led, "U24", "retention TABLE of the recursive minimiser: only Removable predicates are dropped", u24, ctx)
     from . import C07 as _C07c
     run_rule(led, "U25", "an equality decision is read back in the order and arity it was written with (shared with C07-J5)", _C07c.j5, ctx)
+    from . import C05 as _C05b, C17 as _C17b
+    run_rule(led, "U26", "dropping an unsatisfiable-under-assumptions result restores the root state, so the next verdict is about the model (shared with C05-A1)", _C05b.a1, ctx)
+    run_rule(led, "U27", "the …_at_trail_position queries agree on the inclusive position convention and look at the time of each hole (shared with C17-L16)", _C17b.l16, ctx)
